@@ -19,6 +19,8 @@ OPEN (false of the code as it is; see known_findings.json):
   for the stubs of `render_body` itself only (`body_stubs_pass_locals`); below it the flag follows the `_Identifiers`
   on top of the identifier stack (modelled in `Scopes.lean`, compared on every run, not claimed);
 * `reserved_rejected` for module-level `<%! %>` names and `<%namespace name=…>` names – F-C04-1b;
+* "a rewritten `% for` finds its `__M_loop`" without the hypothesis of `for_rewrite_finds_loop_partial` – F-C04-9 (the suite
+  mentions `loop` only inside a nested `<%def>` / `<%call>` body);
 * "`loop` is reserved whenever the loop context is enabled" – F-C04-2: `Cfg.reservedLoop` (from `Template(enable_loop=…)`)
   and `Cfg.enableLoop` (also set by `<%page enable_loop>`) are separate inputs of the model; no theorem equates them;
 * F12b, F12c, F12d (comprehension variables, default-argument / class-body reads, match captures and `async def`
@@ -150,6 +152,59 @@ theorem mlocals_current_counterexample :
 /-- the data a def called with `context._locals(__M_locals)` sees: the overlay wins over the render-time data -/
 theorem locals_overlay_wins (keys : List Name) (ml : ML) (x : Name) (v : MLVal) (h : mlGet ml x = some v) :
     localsData keys ml x = some (.overlay v) := by simp [localsData, h]
+
+/-! ## `loop` while the loop context is disabled -/
+
+/-- With the loop context disabled `loop` is an ordinary name for the generator: no `__M_loop` is created in any
+function, no `% for` line is rewritten to use it (regenerated fact about `visitControlLine`, a named obligation), `loop`
+is declared at function entry under the same rule as every other name, it is not reserved, and the specification
+resolves it through the ordinary chain (module → template defs → namespaces → imports → context → builtins →
+UNDEFINED / strict `NameError`). -/
+theorem loop_is_ordinary_when_disabled (c : Cfg) (hl : c.enableLoop = false) (hr : c.reservedLoop = false) (i : Ids)
+    (T : List Name) (rt : RT) (m : Bool) :
+    Generated.Names.forRewriteOnlyWhenEnabled = true ∧
+    hasLoop c i = false ∧ forRewritten c m = false ∧
+    (loopName ∈ toWrite c i none ↔
+      (loopName ∈ i.undeclared ∨ loopName ∈ i.closdefs) ∧ loopName ∉ i.argDecl ∧ loopName ∉ i.locDecl) ∧
+    loopName ∉ c.reserved ∧
+    Spec.tail c T rt loopName =
+      (if loopName ∈ c.moduleNames then .global else if loopName ∈ T then .defFn
+       else if loopName ∈ c.nsNames then .nsObj else Spec.fetch c.strict rt loopName) := by
+  have hf : Generated.Names.forRewriteOnlyWhenEnabled = true := by decide
+  refine ⟨hf, by simp [hasLoop, hl], by simp [forRewritten, hf, hl], ?_, ?_, by simp [Spec.tail, hl]⟩
+  · rw [mem_toWrite_none]
+    simp [hl]
+  · have : loopName ∉ ({ reservedLoop := false } : Cfg).reserved := by decide
+    simpa [Cfg.reserved, hr] using this
+
+/-- a rewritten `% for` always finds its `__M_loop`: the rewrite happens only while the loop context is enabled -/
+theorem for_rewrite_only_when_enabled (c : Cfg) (m : Bool) (h : forRewritten c m = true) :
+    c.enableLoop = true ∧ m = true := by
+  have hf : Generated.Names.forRewriteOnlyWhenEnabled = true := by decide
+  simpa [forRewritten, hf] using h
+
+example : forRewritten {} true = true ∧ forRewritten { enableLoop := false } true = false := by decide
+
+/-- a rewritten `% for` finds its `__M_loop` when the function it is emitted into, or a function enclosing it, declares
+`loop` itself (i.e. reads `loop` outside nested `<%def>`s / `<%call>` bodies) – and there is never an error while the
+loop context is disabled -/
+theorem for_rewrite_finds_loop_partial (c : Cfg) (loopFors : List Nat) (chain : List Frame) (body : Body)
+    (h : c.enableLoop = false ∨ ∃ f ∈ chain, f.ccall = false ∧ hasLoop c f.ids = true) :
+    forErrors c loopFors chain body = [] := by
+  have hf : Generated.Names.forRewriteOnlyWhenEnabled = true := by decide
+  rcases h with h | ⟨f, hfm, hcc, hl⟩
+  · simp [forErrors, forRewritten, hf, h]
+  · have : mLoopAvailable c chain = true := by
+      simp only [mLoopAvailable, List.any_eq_true]
+      exact ⟨f, hfm, by simp [hcc, hl]⟩
+    simp [forErrors, this]
+
+/-- F-C04-9: `% for i in x:` / `<%call expr="w()">${loop}</%call>` / `% endfor` – the suite mentions `loop` only inside
+the `<%call>` body: the `% for` (tag 1) is rewritten to use `__M_loop`, but `render_body` reads no `loop` of its own and
+never creates it -/
+theorem for_rewrite_finds_loop_counterexample :
+    let t : Body := .leaf 1 ["i".toList] ["x".toList] (.call 2 [] [] ["w".toList] (.leaf 3 [] [loopName] .nil) .nil)
+    forErrors {} [1] (bodyScope {} t).frames t = [1] := by decide
 
 /-! ## strict_raises_iff_missing -/
 
